@@ -4,7 +4,8 @@ import Ruint.Model.Lehmer
 # Model of `src/modular.rs` (`reduce_mod`, `add_mod`, `mul_mod`, `pow_mod`) and of `inv_mod`
 # (`src/algorithms/gcd/mod.rs`)
 
-Layer L2 (DESIGN §3.3a): the *control structure* of each function is mirrored (same early returns, same
+Layer L2 (DESIGN §3.3a; the limb-level L1 versions of `reduce_mod`, `add_mod`, `mul_mod` are in
+`Model/ModularLimbs.lean` and are proved to refine the functions below): the *control structure* of each function is mirrored (same early returns, same
 reductions, same conditional subtraction, same loops and flags), the body operations are the value-level
 specifications of the `Uint` operations they call — a `Uint<BITS>` is a `Nat` below `2^bits`, and every
 place where the Rust operation wraps carries an explicit `% 2^bits`:
